@@ -112,9 +112,12 @@ def raw_cases(rng, thorough):
                 for bgn in (("random", "ones", "zeros") if thorough else (rng.choice(("random", "ones")),)):
                     bg = bytes(rng.getrandbits(8) for _ in range(n)) if bgn == "random" else bytes([0xff if bgn == "ones" else 0] * n)
                     v = rng.getrandbits(64) if bgn != "zeros" else (1 << 64) - 1
-                    cs.add(["buf a " + hexs(bg), "uget a 0 %d %d %d L" % (q, o, b), "sget a 0 %d %d" % (32 * q + o, b),
-                            "uset a 0 %d %d %d L %d" % (q, o, b, v), "dump a",
-                            "buf a " + hexs(bg), "sset a 0 %d %d %d" % (32 * q + o, b, v), "dump a"],
+                    # the PDU at byte offset `off` of a (16-aligned) buffer: every alignment of the quadlets
+                    off = (o + b + q) % 4 if not thorough else rng.randrange(0, 4)
+                    lead = bytes(rng.getrandbits(8) for _ in range(off))
+                    cs.add(["buf a " + hexs(lead + bg), "uget a %d %d %d %d L" % (off, q, o, b), "sget a %d %d %d" % (off, 32 * q + o, b),
+                            "uset a %d %d %d %d L %d" % (off, q, o, b, v), "dump a",
+                            "buf a " + hexs(lead + bg), "sset a %d %d %d %d" % (off, 32 * q + o, b, v), "dump a"],
                            {"shape": [q, o, b], "pattern": bgn})
     return cs
 
